@@ -149,6 +149,11 @@ def fold_records(ck, tree, thorough):
     for cb in combos:
         out = b"".join(cb)
         cases.append((out, "exit 0"))
+    # long texts (a server may say a lot: qmail-remote quotes up to 5000 bytes of it): the verdict letter must survive
+    for n in (2900, 2960, 2999, 3000, 3001, 3100, 5200, 9000):
+        for letter in (b"K", b"Z", b"D"):
+            cases.append((b"r\0" + letter + b"Remote host said: " + b"2" * n + b"\n\0", "exit 0"))
+            cases.append((letter + b"x" * n + b"\0", "exit 0"))
     for out in [b"", b"r\0K\0", b"K\0", b"r\0", b"h\0D\0", b"s\0Z\0", b"x"]:
         for ex in ("exit 1", "exit 100", "exit 111", "exit 99", "exit 255", "signal 9", "signal 11", "signal 15", "signal 6"):
             cases.append((out, ex))
